@@ -79,7 +79,7 @@ def run(path, rlimit=None, seed=None, extra=(), timeout=1800, threads=None):
             if msg.startswith('aborting due to'):
                 continue
             kind = classify(msg)
-            spans = [dict(l0=s['line_start'], l1=s['line_end'], c0=s['column_start'], primary=s['is_primary'], label=s.get('label'),
+            spans = [dict(l0=s['line_start'], l1=s['line_end'], c0=s['column_start'], primary=s['is_primary'], label=s.get('label'), file=s.get('file_name', ''),
                           text=(s.get('text') or [{}])[0].get('text', '').strip() if s.get('text') else '')
                      for s in d.get('spans', [])]
             if kind is None:
@@ -138,4 +138,8 @@ def attribute(res, meta):
                     fn = f
         d['tags'] = tg
         d['function'] = fn
+        # a failed precondition of one of OUR contracted functions (clause located in the generated file) is a proof-scaffold
+        # matter; a failed precondition of a std/vstd function (unwrap, index, slice range) is a possible panic
+        d['user_pre'] = d['kind'] == 'pre' and any((s.get('label') or '').startswith('failed precondition') and os.path.basename(s.get('file', '')) == os.path.basename(meta['file'])
+                                                     for s in d['spans'])
     return res
